@@ -23,7 +23,12 @@ ModeOrder == ModeOrders[((N + flt.nc + flt.nd + (IF gse THEN 0 ELSE 1) + (IF apu
 \* is a finite non-negative number and the totals are the sums of the parts.  One form per flight.
 EdbForms == <<"reported", "partial_idle", "partial_takeoff", "unreported">>
 EdbForm == EdbForms[((N + 2 * flt.nc + 3 * flt.nd + (IF gse THEN 1 ELSE 0)) % 4) + 1]
-Emit == PrintT("@@" \o ToJson([n |-> N, carrier |-> Carrier, profile |-> AltProfile, modeorder |-> ModeOrder, edb |-> EdbForm, burn |-> [i \in 1..N |-> SegBurn(i)], nc |-> flt.nc, nd |-> flt.nd,
+\* The per-mode LTO indices of the performance model are the CALLER's data: frozen tables (as loaded from a file) or mutable
+\* ones (a hand-built model, a sensitivity run that scaled them).  An inventory reads them; the same model serves the next
+\* flight.  One form per flight; the models are shared by all flights of a process.
+LtoForms == <<"frozen", "mutable">>
+LtoForm == LtoForms[((N + flt.nc + 2 * flt.nd + (IF apu = "running" THEN 1 ELSE 0)) % 2) + 1]
+Emit == PrintT("@@" \o ToJson([n |-> N, carrier |-> Carrier, profile |-> AltProfile, modeorder |-> ModeOrder, edb |-> EdbForm, ltoform |-> LtoForm, burn |-> [i \in 1..N |-> SegBurn(i)], nc |-> flt.nc, nd |-> flt.nd,
                                mode |-> mode, flows |-> flows, apu |-> apu, gse |-> gse,
                                window |-> [i \in 1..N |-> InWindow(i)], trajfuel |-> TrajFuel,
                                ltofuel |-> [m \in {"idle", "approach", "climb", "takeoff"} |-> LtoFuel(m)],
